@@ -74,6 +74,96 @@ def _backlog_stream(case, obs):
             'sample': {'kind': 'servers/backlog-stream', 'preprocessor': case['preproc'], 'return_exceptions': case['return_exceptions'], 'sync': repr(rs)[:200]}}
 
 
+def _deadline_after_wait(case, obs):
+    """capacity 1, service time 0.6 s, timeout 0.65 s counted from reception: a request that first waits ~0.55 s for room cannot be answered
+    in time.  Both servers must answer it with TimeoutError (call) / an exception in its place (stream); a VALUE delivered later than
+    timeout + 0.5 s after the request was made means the clock was started late."""
+    import time
+
+    from mpservice.mpserver import AsyncServer, Server, ThreadServlet
+    from vlib.srvtargets import TagWorker
+
+    T, SVC = 0.65, 0.6
+    toks = [('tok', 0, i, (('A', 'sleep', SVC),)) for i in range(3)]
+
+    def kind(y):
+        return 'value' if isinstance(y, tuple) and y and y[0] == 'A' else type(y).__name__
+
+    def sync_run():
+        import threading
+
+        res = {}
+        with Server(ThreadServlet(TagWorker, tag='A', num_threads=1), capacity=1) as s:
+            def one(i):
+                t0 = time.monotonic()
+                try:
+                    y = s.call(toks[i], timeout=T, backpressure=False)
+                except Exception as e:  # noqa: BLE001
+                    y = e
+                res[i] = (kind(y), time.monotonic() - t0)
+
+            ths = [threading.Thread(target=one, args=(i,)) for i in range(2)]
+            ths[0].start()
+            time.sleep(0.05)
+            ths[1].start()
+            for t in ths:
+                t.join()
+            time.sleep(0.7)
+            t0 = time.monotonic()
+            st = [(kind(y), time.monotonic() - t0) for y in s.stream(iter(toks), return_exceptions=True, timeout=T)]
+        return [res[0], res[1]], st
+
+    async def async_run():
+        res = {}
+        async with AsyncServer(ThreadServlet(TagWorker, tag='A', num_threads=1), capacity=1) as s:
+            async def one(i, delay):
+                await asyncio.sleep(delay)
+                t0 = time.monotonic()
+                try:
+                    y = await s.call(toks[i], timeout=T, backpressure=False)
+                except Exception as e:  # noqa: BLE001
+                    y = e
+                res[i] = (kind(y), time.monotonic() - t0)
+
+            await asyncio.gather(one(0, 0), one(1, 0.05))
+            await asyncio.sleep(0.7)
+
+            async def src():
+                for x in toks:
+                    yield x
+
+            t0 = time.monotonic()
+            st = []
+            async for y in s.stream(src(), return_exceptions=True, timeout=T):
+                st.append((kind(y), time.monotonic() - t0))
+        return [res[0], res[1]], st
+
+    viol = []
+    try:
+        rs = watch.run_bounded(sync_run, 40, 'Server deadline-after-wait')
+        ra = watch.run_bounded(lambda: asyncio.run(async_run()), 40, 'AsyncServer deadline-after-wait')
+    except watch.Hang as h:
+        viol.append({'mech': 'servers/hang', 'msg': h.what, 'stacks': h.stacks})
+        return {'violations': viol, 'obs': obs, 'exit_after': True}
+    obs['pairs'] += 1
+    obs['server_pairs'] = 1
+    obs['deadline_after_wait_pairs'] = 1
+    obs['outputs_compared'] += 5
+    for name, (calls, st) in (('Server', rs), ('AsyncServer', ra)):
+        for what, lst in (('call', calls), ('stream element', st)):
+            for i, (k, el) in enumerate(lst):
+                if k == 'value' and what == 'call' and el > T + 0.5:
+                    viol.append({'mech': f'{name}/deadline-not-counted-from-reception', 'msg': f'{name}.call #{i} with timeout {T}s returned a value {el:.2f}s after it was made (it waited for room first; service time {SVC}s): '
+                                 f'the time limit includes the wait for room'})
+    # the two servers agree on which requests were answered in time (decided only when the first, unobstructed request was in time on both sides)
+    if not viol and rs[0][0][0] == 'value' and ra[0][0][0] == 'value' and rs[1][0][0] == 'value' and ra[1][0][0] == 'value':
+        ks, ka = [k for k, _ in rs[0]] + [k for k, _ in rs[1]], [k for k, _ in ra[0]] + [k for k, _ in ra[1]]
+        if ks != ka:
+            viol.append({'mech': 'AsyncServer/differs-from-Server/deadline-after-wait', 'msg': f'capacity 1, service {SVC}s, timeout {T}s: Server gave {rs!r}, AsyncServer gave {ra!r}'[:700]})
+    return {'violations': viol, 'obs': obs, 'sigs': [hash(('deadline-after-wait',)) & 0xFFFFFFFFFFFF], 'nontrivial': True,
+            'sample': {'kind': 'servers/deadline-after-wait', 'sync': repr(rs)[:200], 'async': repr(ra)[:200]}}
+
+
 def _strip_wait(z):
     # ServerBacklogFull(n, seconds waited): the wait is a measurement
     if isinstance(z, tuple) and len(z) == 3 and z[0] == 'EXC' and z[1] == 'ServerBacklogFull':
@@ -91,6 +181,8 @@ def run(case, obs):
 
     if case.get('backlog_stream'):
         return _backlog_stream(case, obs)
+    if case.get('deadline_after_wait'):
+        return _deadline_after_wait(case, obs)
 
     rng = random.Random(case['seed'])
     n = case['n']
